@@ -65,6 +65,12 @@ class C07(core.Prop):
             for r in range(5):
                 out.append({'n': 5, 'edges': bow, 'perm': [(i + r) % 5 for i in range(5)], 'stride': 1})
             out.append({'n': 5, 'edges': bow, 'perm': [4, 3, 2, 1, 0], 'stride': 1})
+            # dense graphs (many ring bonds open at once, markers released and re-used out of order): every 5-node graph
+            # with 6-10 edges, 2 bond orders symbolic
+            for g in atlas(5, 5):
+                if g.number_of_edges() >= 6:
+                    for p in ([0, 1, 2, 3, 4], [4, 3, 2, 1, 0]):
+                        out.append({'n': 5, 'edges': [list(e) for e in sorted(g.edges)], 'perm': p, 'stride': 1, 'free_orders': 2})
         if tier == 'thorough':
             # many ring closures: K_{2,7}-like graph forces > 9 simultaneously open markers
             n = 9
